@@ -799,7 +799,7 @@ class Gen:
     # ------------------------------------------------------------------ cyclic / self-referential definitions
     def cyclic(self):
         r = self.r
-        n = r.choice([2, 3, 4, 7])
+        n = r.choice([2, 3, 4, 7, 10])      # non-additive rings: G bounds the ring length at 10 (time doubles per definition)
         ring = "\n".join(f"c{i} = c{(i + 1) % n} + 1" for i in range(n))
         ring_mul = "\n".join(f"m{i} = m{(i + 1) % n} * 2" for i in range(n))
         T = [
